@@ -130,6 +130,37 @@ func harnessBPass(ov *overlay.Overlay, scratch, tier string) string {
 	return string(b)
 }
 
+// harnessCPass runs TestVerifC07C (overlay test file of package main in cmd): Config.run on a small
+// module under every schedule within the bound; returns its JSON result or "unavailable: ...".
+func harnessCPass(scratch, tier string) string {
+	dir := filepath.Join(scratch, "c07c")
+	os.MkdirAll(dir, 0o755)
+	ov := overlay.New(evid.VerifDir)
+	if err := ov.Sync(evid.RepoDir+"/generator/formatters.go", dir); err != nil {
+		return "unavailable: instrumenting generator/formatters.go: " + err.Error()
+	}
+	if err := ov.Sync(evid.RepoDir+"/cmd/gomacro.go", dir); err != nil {
+		return "unavailable: instrumenting cmd/gomacro.go: " + err.Error()
+	}
+	ov.Replace[evid.RepoDir+"/cmd/verif_c20b_test.go"] = filepath.Join(evid.VerifDir, "mc", "overlay", "files", "verif_c20b_test.go.txt")
+	ovPath, err := ov.Write(dir)
+	if err != nil {
+		return "unavailable: " + err.Error()
+	}
+	out := filepath.Join(dir, "c07c.json")
+	c := exec.Command("go", "test", "-overlay", ovPath, "-vet=off", "-count=1", "-run", "TestVerifC07C", "./cmd")
+	c.Dir = evid.RepoDir
+	c.Env = append(os.Environ(), "GOFLAGS=-mod=readonly", "GOPROXY=off", "GOSUMDB=off", "GOTOOLCHAIN=local", "VERIF_C07C_OUT="+out, "VERIF_TIER="+tier)
+	if b, err := c.CombinedOutput(); err != nil {
+		return "unavailable: go test of harness C failed: " + trunc(string(b), 600)
+	}
+	b, err := os.ReadFile(out)
+	if err != nil {
+		return "unavailable: no result file"
+	}
+	return string(b)
+}
+
 func firstLine(s string) string {
 	if i := strings.Index(s, "\n"); i >= 0 {
 		return s[:i]
@@ -156,8 +187,11 @@ func runC07(tier string) int {
 		fmt.Fprintln(os.Stderr, "BUILD FAILED:", err)
 		return 2
 	}
+	// harness C: the CLI's configuration mode under the cooperative scheduler (its own overlay:
+	// sync / go statements of cmd/gomacro.go and generator/formatters.go, not the map ranges)
+	harnessC := harnessCPass(scratch, tier)
 	cmd := exec.Command(bin, tier)
-	cmd.Env = append(os.Environ(), "VERIF_DIR="+evid.VerifDir, "VERIF_C07_SITES="+strings.Join(ov.Sites, ","))
+	cmd.Env = append(os.Environ(), "VERIF_DIR="+evid.VerifDir, "VERIF_C07_SITES="+strings.Join(ov.Sites, ","), "VERIF_C07C="+harnessC)
 	cmd.Stdout, cmd.Stderr = os.Stdout, os.Stderr
 	if err := cmd.Run(); err != nil {
 		if ee, ok := err.(*exec.ExitError); ok {
